@@ -35,12 +35,12 @@ CHECKS = {
  "C14": ("drv_mt arena scenario + vf_sched", "schedule-controlled concurrent multi-block claims in one exclusive arena (targeted at bitmap.c / arena.c), stamps + lifetime replay + range check, capacity probes at quiescence",
          "Arenas of 96-160 blocks over PROT_NONE address space; claims of 1-7 blocks straddling bitmap fields, failing when full, rolling back, with purges running; afterwards the whole arena and exactly block_count single-block segments must be allocatable.", "3 C14"),
  "C10": ("drv_seq heaps profile (+ drv_mt heap-delete scenario)", "runtime monitor: shadow model with heap attribution, ownership-query cross-check against every heap, conservation after destroy, default-heap checks; concurrent part under the schedule controller",
-         "Sequential histories over up to 8 first-class heaps in any order of new/alloc/delete/destroy/set_default with ownership queries on live blocks; blocks of exited threads are adopted meanwhile.", "3 C10"),
+         "Sequential histories over up to 8 first-class heaps in any order of new/alloc/delete/destroy/set_default with ownership queries on live blocks; blocks of exited threads are adopted meanwhile; tagged-heap pattern (a terminated thread's tagged pages are adopted while a destroyable heap with the same tag exists, then that heap is destroyed); concurrent part: heap delete (untagged: merge path, tagged: abandon path) racing remote frees under the schedule controller incl. the simulated store buffer, ending with quiescence checks. Known finding K2 (blocks of a deleted tagged heap freed by the same thread) is exercised by one dedicated case per release-like variant and printed as KNOWN-FINDING.", "3 C10"),
  "C11": ("drv_seq ledger profile + OS shim", "OS-ledger monitor (mmap/munmap/mprotect/madvise shim + mincore) over repeated allocate-everything/free-everything rounds",
          "5 workloads (small, large, huge, aligned-huge, threads with exit) x 4 option settings x 2 builds, 7 repetitions each (40 in the thorough tier): no OS region >= 1 MiB outside arenas may survive free-all + forced collects, "
-         "arena memory must not stay resident, mapped/resident bytes and arena blocks in use must not grow from repetition 3 on.", "3 C11"),
+         "arena memory must not stay resident, mapped/resident bytes and arena blocks in use must not grow from repetition 3 on; workload 5: storms of 8 threads terminating at the same moment (thread metadata cache).", "3 C11"),
  "C12": ("drv_seq walk profile", "runtime monitor: set comparison of mi_heap_visit_blocks output with the shadow model every 64 operations (and mi_abandoned_visit_blocks where forced abandonment is configured)",
-         "Every live block reported exactly once with an enclosing range, no dead block, per-area used count, early stop honoured; hole patterns from random/LIFO/FIFO/same-class/neighbour free orders.", "3 C12"),
+         "Every live block reported exactly once with an enclosing range, no dead block, per-area used count, early stop (from block and area callbacks) honoured; structured hole patterns; abandoned walks incl. early stop then complete walk; abandoned-groups pattern (threads alive together terminate with live blocks, groups freed from the middle) with and without arenas and reclaim-on-free.", "3 C12"),
  "C13": ("drv_seq under option vectors", "pairwise (thorough: 3-wise) covering array over 13 commit/purge/arena options x history profiles, virtual clock, purge-range callback against the shadow model",
          "Covering array plus the complete cross of purge_delay x purge_decommits x eager_commit x {arena eager, arena lazy, no arena}; each option vector re-runs the C01/C03/C04/C05/C12 oracles; every madvise(DONTNEED/FREE)/mprotect(PROT_NONE) range is checked against live blocks before it is executed; debug builds really revoke access on decommit.", "3 C13"),
  "C15": ("drv_seq arena profile", "runtime monitor: address-range checks on every returned pointer against mi_arena_area / the region given to mi_manage_os_memory_ex, canary zones, threads terminating with live blocks inside exclusive arenas",
@@ -99,7 +99,7 @@ def main():
             {"name": "vf_sched", "path": "harness/vf_sched.c", "serves_properties": ["C02", "C08", "C09", "C10", "C14"], "kind_free_text": "schedule controller"},
         ],
         "checks": checks,
-        "notes": "Runtime monitoring and sanitizers only. See DESIGN.md; known_findings.json lists the genuine defects found (all repaired by fix: commits so far).",
+        "notes": "Runtime monitoring and sanitizers only. See DESIGN.md; known_findings.json lists the genuine defects found: F1-F18 repaired by fix: commits in /repo, K1 (C03, debug builds) and K2 (C10, tagged heap delete) recorded as known findings; seeded/ holds 99 confirmed seeded changes and the outcome of the checks against them.",
         "not_applicable": na,
     }
     with open(os.path.join(VERIF, "MANIFEST.json"), "w") as fh:
